@@ -498,7 +498,7 @@ def write_evidence(ck: Check, mod, st: ProofStatus, exit_code: int):
             **ck.extra,
         },
     }
-    d = VERIF / "evidence"
+    d = Path(os.environ.get("VERIF_EVIDENCE_DIR", VERIF / "evidence"))
     d.mkdir(exist_ok=True)
     (d / f"{ck.prop}.json").write_text(json.dumps(ev, indent=1, sort_keys=True, default=str) + "\n")
 
